@@ -274,8 +274,8 @@ def level_params(rnd, crits, alts, increasing, explicit_prob=0.35):
     dyadic = rnd.random() < 0.5
     if dyadic:
         coef = rnd.choice([0.25, 0.5, 0.125, 0.75])
-        mn = rnd.choice([0.0, 0.25, 0.5, 0.125]) if increasing else rnd.choice([0.25, 0.5, 0.125, 0.0625])
-        mx = rnd.choice([0.5, 0.75, 1.0, 0.25])
+        mn = rnd.choice([0.0, 0.25, 0.5, 0.125, 1.0]) if increasing else rnd.choice([0.25, 0.5, 0.125, 0.0625, 1.0])
+        mx = rnd.choice([0.5, 0.75, 1.0, 0.25, 0.0, 1.0])
     else:
         coef = rnd.choice([0.1, 0.2, 0.3, 0.45, 0.9, 0.05, round(rnd.uniform(0.05, 0.95), 3)])
         mn = round(rnd.uniform(0.0 if increasing else 0.05, 0.6), 2)
@@ -459,6 +459,10 @@ def gen_bias(rnd, name, req, n_crits):
             p['function'] = 'expFromZero'
             p['params'] = {'alpha': rnd.choice([0.01, 0.1, 0.5, -0.2]), 'multiplier': rnd.choice([0.1, 1.0, 0.5]),
                            'queryNumber': rnd.choice([0, 1, 3, 10, 25])}
+        # a parameter left out is 0 (never what an earlier request carried)
+        for k in list(p['params']):
+            if rnd.random() < 0.15:
+                del p['params'][k]
     elif name == 'criteriaConcealment':
         p = dict(bounding_opts(rnd), **reference_opts(rnd))
         p['randomSeed'] = some_seed(rnd)
